@@ -422,7 +422,8 @@ func (h *histogram) snapshotValues() map[float64]int64 {
 
 	vals := make(map[float64]int64, len(h.buckets))
 	for i := range h.buckets {
-		vals[h.buckets[i].valueUpperBound] = h.samples[i].counter.snapshot()
+		// Equal upper bounds (duplicates in the specification) share one key.
+		vals[h.buckets[i].valueUpperBound] += h.samples[i].counter.snapshot()
 	}
 
 	return vals
@@ -435,7 +436,8 @@ func (h *histogram) snapshotDurations() map[time.Duration]int64 {
 
 	durations := make(map[time.Duration]int64, len(h.buckets))
 	for i := range h.buckets {
-		durations[h.buckets[i].durationUpperBound] = h.samples[i].counter.snapshot()
+		// Equal upper bounds (duplicates in the specification) share one key.
+		durations[h.buckets[i].durationUpperBound] += h.samples[i].counter.snapshot()
 	}
 
 	return durations
